@@ -399,7 +399,16 @@ func (x *Exec) callFunc(s *State, call *ast.CallExpr, f *types.Func, recv *Term)
 		x.fail(call, "no contract for callee %s", name)
 	}
 	args := x.evalArgs(s, call, sig)
-	return x.callByContract(s, c, name, sig, recv, args, nil, call)
+	outs := x.callByContract(s, c, name, sig, recv, args, nil, call)
+	if name == "bufio.(*Scanner).Bytes" && len(outs) == 1 && recv != nil {
+		// the token is borrowed from the scanner: it is valid until the next Scan on the same scanner
+		gen := Select(x.getSt(s, "scgen", arraySort(SRef, SInt)), recv)
+		if x.borrow == nil {
+			x.borrow = map[string]borrowInfo{}
+		}
+		x.borrow[outs[0].String()] = borrowInfo{scanner: recv, gen: gen}
+	}
+	return outs
 }
 
 func (x *Exec) sprintfErr(s *State, format ast.Expr, args []ast.Expr) *Term {
